@@ -17,8 +17,12 @@ REAL_TCP = ("real: all of aioswitcher from the working tree, asyncio SelectorEve
             "models (heater/plug/runner/breeze), the user issuing operations")
 
 
+import os
+
+
 def scale(tier: str, quick: int, thorough: int) -> int:
-    return quick if tier == "quick" else thorough
+    n = quick if tier == "quick" else thorough
+    return max(1, int(n * float(os.environ.get("VERIF_SCALE", "1"))))
 
 
 def c01_strata(tier: str) -> List[Stratum]:
